@@ -135,7 +135,7 @@ func c27BackendAction(x *e2e.Exchange) e2e.Action {
 }
 
 func c27(r *vkit.Run) {
-	r.SetRule("full in-process BFE; every combination of request method {GET,HEAD,POST} x HTTP/1.{0,1} x Connection {none,close,keep-alive} x response source {backend with framing cl/chunked/close-delimited/short Content-Length, module (BfeHandlerResponse filter) with/without Content-Length} x status {200,204,301,304,404,500,999; module also 100,101} x body size {0,1,511,512,513,4095,4096,65537} x backend Connection header {none,close,keep-alive} is ENUMERATED (both tiers); thorough adds 0-3 noise headers variants. The client pipelines a probe request after the case; the client byte stream is parsed by the strict RFC 7230 reference response parser. Non-trivial = response reached the client; distinct = the axis tuple")
+	r.SetRule("full in-process BFE. (1) ENUMERATED (both tiers, complete): every combination of request method {GET,HEAD,POST} x HTTP/1.{0,1} x Connection {none,close,keep-alive} x response source {backend with framing cl/chunked/close-delimited/short Content-Length, module (BfeHandlerResponse filter) with/without Content-Length} x status {200,204,301,304,404,500,999; module also 100,101} x body size {0,1,511,512,513,4095,4096,65537} x backend Connection header {none,close,keep-alive}; thorough adds 0-3 noise headers variants. (2) STREAMED responses to slow clients (c27stream.go, seeded): clusters with ResFlushInterval 1/5/20 ms and/or requests with Accept: text/event-stream; a raw backend sends a chunked or close-delimited body as one block plus K pieces with pauses (a few KB .. 4 MB); the client connects with SO_RCVBUF 1024..default and TCP_MAXSEG 536..default from a fresh loopback source address and either reads nothing until the backend has finished, stalls for 50-400 ms, reads slowly in small pieces, stalls in the middle, or reads at full speed; families brim/sweep/sse-brim walk the response size in steps smaller than the last piece across the amount a stalled client lets bfe queue (about 29 KB, measured per run for the evidence), so that bfe's write of the last piece - by the tick-driven flusher (400-byte pieces) or by the copy loop (3000-byte pieces) - is still blocked when the backend body ends. Both parts: the client pipelines a probe request after the case (stream cases: only on HTTP/1.1); the client byte stream is parsed by the strict RFC 7230 reference response parser and must be exactly one response with the backend's status, X-Case header and body, followed by nothing or by the probe's reply. Non-trivial = response reached the client; distinct = the axis tuple")
 	bs := e2e.NewBackendSet()
 	defer bs.Close()
 	be := bs.New("b1", c27BackendAction)
